@@ -157,6 +157,15 @@ std::string norm_tokens(const std::string& l)
    return o;
 }
 
+/// case-insensitive comparison of whole strings (a field may contain NUL bytes: no C string functions)
+bool ieq(const std::string& a, const char* b)
+{
+   const size_t n = std::strlen(b);
+   if (a.size() != n) return false;
+   for (size_t i = 0; i < n; ++i) if (std::tolower((unsigned char)a[i]) != std::tolower((unsigned char)b[i])) return false;
+   return true;
+}
+
 bool has_spinfo_34(const std::string& out)
 {
    bool in_spinfo = false;
@@ -167,7 +176,7 @@ bool has_spinfo_34(const std::string& out)
       if (!t.empty()) {
          // SLHAea treats BLOCK and DECAY lines alike as block definitions (name = second token)
          // (SLHAea::Line::is_block_def: at least two fields, the second not a comment)
-         if (t.size() >= 2 && t[1][0] != '#' && (strcasecmp(t[0].c_str(), "block") == 0 || strcasecmp(t[0].c_str(), "decay") == 0)) in_spinfo = strcasecmp(t[1].c_str(), "spinfo") == 0;
+         if (t.size() >= 2 && t[1][0] != '#' && (ieq(t[0], "block") || ieq(t[0], "decay"))) in_spinfo = ieq(t[1], "spinfo");
          else if (in_spinfo && (t[0] == "3" || t[0] == "4") && t.size() > 1) return true;
       }
       b = e + 1;
@@ -215,7 +224,7 @@ std::string oracle(const Scenario& s, const Outcome& o, std::string& detail)
          } else {
             const char* blk = f == 2 ? "LOWEN" : f == 3 ? "SPhenoLowEnergy" : "GM2CalcOutput";
             bool found = false; size_t b2 = 0;
-            while (b2 < o.out.size()) { size_t e = o.out.find('\n', b2); if (e == std::string::npos) e = o.out.size(); const auto t = sim::split(o.out.substr(b2, e - b2)); if (t.size() > 1 && strcasecmp(t[0].c_str(), "block") == 0 && strcasecmp(t[1].c_str(), blk) == 0) found = true; b2 = e + 1; }
+            while (b2 < o.out.size()) { size_t e = o.out.find('\n', b2); if (e == std::string::npos) e = o.out.size(); const auto t = sim::split(o.out.substr(b2, e - b2)); if (t.size() > 1 && ieq(t[0], "block") && ieq(t[1], blk)) found = true; b2 = e + 1; }
             if (!found) { detail = std::string("SLHA output format: block ") + blk + " missing on stdout"; return "format:slha"; }
          }
       }
